@@ -101,6 +101,20 @@ func piecesGen(args []string) {
 				mark := 700 + r.Intn(90)
 				pieces = append(pieces, N{"kind": "interrupted", "mark": mark, "src": fmt.Sprintf("//@deadline\nprint(%d)\nfor {\n}", mark)})
 			}
+			if r.Intn(12) == 0 {
+				// an input that exhausts the VM's OPERAND stack (two pending operands per level of a recursion that is
+				// local to the input, or a list literal with more items than the stack has slots) after printing a mark
+				mark := 800 + r.Intn(90)
+				src := fmt.Sprintf("print(%d)\nfunc() {\nfunc od(n) {\nreturn 1 + (2 + od(n + 1))\n}\nreturn od(0)\n}()", mark)
+				if r.Intn(3) == 0 {
+					items := make([]string, 1100)
+					for k := range items {
+						items[k] = "1"
+					}
+					src = fmt.Sprintf("print(%d)\nlen([%s])", mark, strings.Join(items, ", "))
+				}
+				pieces = append(pieces, N{"kind": "exhausted", "mark": mark, "src": src})
+			}
 			pieces = append(pieces, N{"kind": "code", "ast": sts, "hoist": hoistNames(sts), "declares": len(declaredNames(sts)) > 0,
 				"src": ast.Render(sts)})
 			known = append(known, declaredNames(sts)...)
